@@ -165,3 +165,33 @@ Definition c09_row (c : cfg) (ts : list task) (obs : list (obs1 * outcome)) : li
     forallb (fun o => outcome_eqb (snd (fst o)) (snd o)) obs;
     all2 (ok_refuses c) ts o1;
     forallb ok_nocrash o1 ].
+
+(* ---- launcher selection (find_launcher over a launch order) ----
+   obs: per task which launcher of the order was selected (or the exception,
+   or none) and the command of the selected launcher.  The clauses judge the
+   SELECTED launcher's command against the placement. *)
+Definition sel_eqb : (err + option nat) -> (err + option nat) -> bool :=
+  eqb_sum err_beq (eqb_option Nat.eqb).
+
+Definition sel_clause (f : cfg -> task -> obs1 -> bool) (cs : list cfg) (t : task)
+  (o : (err + option nat) * option outcome) : bool :=
+  match fst o, snd o with
+  | inr (Some i), Some oc =>
+      match nth_error cs i with
+      | Some c => f c t (inr true, oc)
+      | None => false
+      end
+  | _, _ => true
+  end.
+
+Definition c09_select_row (cs : list cfg) (ts : list task)
+  (obs : list ((err + option nat) * option outcome)) : list bool :=
+  [ all2 (fun t o => let m := select_obs cs t in
+                     sel_eqb (fst m) (fst o) && eqb_option outcome_eqb (snd m) (snd o)) ts obs;
+    all2 (sel_clause ok_count cs) ts obs;
+    all2 (sel_clause ok_nodes cs) ts obs;
+    all2 (sel_clause ok_pins cs) ts obs;
+    true;
+    all2 (sel_clause ok_refuses cs) ts obs;
+    forallb (fun o => match fst o with inl ECrash => false | _ => true end
+                      && match snd o with Some (inl ECrash) => false | _ => true end) obs ].
